@@ -311,10 +311,23 @@ func genPageCase(t *rapid.T, o pageGenOpts) PageCase {
 		if o.emptyRows && chancePct(t, 40, "trailingempty") {
 			rows = append(rows, "") // content that ends in a line break
 		}
+		giantSink := false
+		if uniformN(t, 250, "giantsink") == 0 {
+			// sink content of more than 64 KiB, on pages of several hundred bytes: page
+			// offsets are not 16-bit quantities either
+			giantSink = true
+			n := 950 + uniformN(t, 500, "giantrows")
+			step := 1 + uniformN(t, 9, "giantstep")
+			rows = rows[:0]
+			for i := 0; i < n; i++ {
+				rows = append(rows, fmt.Sprintf("%d:%s", i, strings.Repeat(string(rune('a'+i%26)), 45+(i*step)%37)))
+			}
+			c.Size = uint32(base + navNext + navPrev + 500 + uniformN(t, 700, "giantcap"))
+		}
 		c.Vals = append(c.Vals, PVal{"sink", strings.Join(rows, "\n"), 0})
 		// the boundary between one page and two: the output size at which everything fits
 		// without browse entries, give or take a byte or a browse entry
-		if chancePct(t, 12, "exactfit") {
+		if !giantSink && chancePct(t, 12, "exactfit") {
 			whole := len(c.expect(rows, false, false))
 			d := []int{0, 0, 1, -1, 2, -2, navNext, -navNext, navNext + 1, navNext - 1, navPrev, navNext + navPrev}[uniformN(t, 12, "fitdelta")]
 			c.Size = uint32(max(1, whole+d))
